@@ -272,13 +272,25 @@ func c13r2(r *R) {
 		}
 	}
 	// skipTraceWroteResponse decision table
-	sk := r.fn(mpkg, "skipTraceWroteResponse")
-	mm, ok := decisionTable(sk, map[string]string{
-		"($1 != nil)": "err", `($0.Request.Method == "CONNECT")`: "connect", "(($0.StatusCode / 100) == 2)": "2xx",
+	sk, takesErr := tunnelPredicate(r)
+	if sk == nil {
+		return
+	}
+	atoms := map[string]string{
+		`($0.Request.Method == "CONNECT")`: "connect", "(($0.StatusCode / 100) == 2)": "2xx",
 		"($0.StatusCode == 101)": "101", "($0.Body == martian.panicBody)": "handed",
-	}, 0, func(a map[string]bool) bool {
+	}
+	if takesErr {
+		atoms["($1 != nil)"] = "err"
+	}
+	mm, ok := decisionTable(sk, atoms, 0, func(a map[string]bool) bool {
 		return !a["err"] && (a["connect"] && a["2xx"] || a["101"] && a["handed"])
 	})
+	if ok && !takesErr {
+		// the error test was moved to the callers: each must ask the predicate only when nothing failed
+		// (or report completion with a literal nil, having no error to report)
+		mm = append(mm, predicateAskedOnlyWithoutError(r, sk)...)
+	}
 	switch {
 	case !ok:
 		r.undecided("skipTraceWroteResponse#table", sk.Pos(), strings.Join(mm, "; "))
@@ -761,4 +773,107 @@ func c13r6(r *R) {
 		ps, _ := enumPaths(fn, 4, 1)
 		r.check(len(ps) == 1 && ps[0].Ret[0] == "(*sync/atomic.Uint64).Load($0."+ctr+")", "conntrack.Observer."+m, fn.Pos(), m+"() reads "+ctr, m+"() does not report the "+ctr+" counter")
 	}
+}
+
+// tunnelPredicate finds the function that decides whether the completion report is left to the tunnel:
+// skipTraceWroteResponse(res, err), or - when the error test was moved out to its callers - the one new
+// function of a response that tests the hand-over marker.
+func tunnelPredicate(r *R) (*ssa.Function, bool) {
+	p := r.pkg(mpkg)
+	if f := p.Func("skipTraceWroteResponse"); f != nil && len(f.Blocks) > 0 {
+		return f, len(f.Params) == 2
+	}
+	if f := refFuncLookup(p.Pkg.Path(), "", "skipTraceWroteResponse"); f != nil {
+		return f, len(f.Params) == 2
+	}
+	var found []*ssa.Function
+	for _, m := range p.Members {
+		f, ok := m.(*ssa.Function)
+		if !ok || !isNewHelper(f) || len(f.Params) != 1 || f.Signature.Results().Len() != 1 || !types.Identical(f.Signature.Results().At(0).Type().Underlying(), types.Typ[types.Bool]) {
+			continue
+		}
+		marker := false
+		for _, b := range f.Blocks {
+			for _, ins := range b.Instrs {
+				if u, ok := ins.(*ssa.UnOp); ok {
+					if g, ok := u.X.(*ssa.Global); ok && g.Name() == "panicBody" {
+						marker = true
+					}
+				}
+			}
+		}
+		if marker {
+			found = append(found, f)
+		}
+	}
+	if len(found) == 1 {
+		return found[0], false
+	}
+	r.missing("func %s.%s", mpkg, "skipTraceWroteResponse")
+	return nil, false
+}
+
+func predicateAskedOnlyWithoutError(r *R, sk *ssa.Function) (why []string) {
+	sites := 0
+	for _, m := range r.pkg(mpkg).Members {
+		var fns []*ssa.Function
+		switch x := m.(type) {
+		case *ssa.Function:
+			fns = withClosures(x)
+		case *ssa.Type:
+			for _, T := range []types.Type{x.Type(), types.NewPointer(x.Type())} {
+				ms := r.SSA.MethodSets.MethodSet(T)
+				for i := 0; i < ms.Len(); i++ {
+					if f := r.SSA.MethodValue(ms.At(i)); f != nil && f.Synthetic == "" && f.Pkg == r.pkg(mpkg) {
+						fns = append(fns, withClosures(f)...)
+					}
+				}
+			}
+		}
+		for _, f := range fns {
+			var ask *ssa.Call
+			var reports []*ssa.Call
+			for _, b := range f.Blocks {
+				for _, ins := range b.Instrs {
+					c, ok := ins.(*ssa.Call)
+					if !ok {
+						continue
+					}
+					if staticCallee(c.Common()) == sk {
+						ask = c
+					} else if strings.HasSuffix(calleeName(c.Common()), ").traceWroteResponse") {
+						reports = append(reports, c)
+					}
+				}
+			}
+			if ask == nil {
+				continue
+			}
+			sites++
+			for _, rep := range reports {
+				if !reaches(ask, rep) {
+					continue // reported before the predicate is consulted: not the report it decides about
+				}
+				args := rep.Common().Args
+				e := args[len(args)-1]
+				if k, ok := e.(*ssa.Const); ok && k.IsNil() {
+					continue
+				}
+				want := "(" + describe(e) + " == nil)"
+				okGuard := false
+				for _, g := range guardStrings(ask.Block()) {
+					if k, pol := normCond(g); k == want && pol {
+						okGuard = true
+					}
+				}
+				if !okGuard {
+					why = append(why, fname(f)+": the predicate is consulted although "+shorten(describe(e), 40)+" may be set - a failed write would not be reported")
+				}
+			}
+		}
+	}
+	if sites < 2 {
+		why = append(why, fmt.Sprintf("the predicate is consulted in %d functions, expected both writeResponse implementations", sites))
+	}
+	return why
 }
